@@ -17,7 +17,9 @@ RULE = ("(1) histories of 1..25 operations on a CertificateLibrary + VerifyServi
         "(ecdsa + re-encoded ToBeSignedCertificate) must accept every stored AA and AT; a message may be SUCCESS only if the signer "
         "chains to the configured root, its psid is in the ticket's appPermissions and its generationTime inside the validity period. "
         "(2) issuing API: enumerated combinations of issuer permissions x minChainLength 0..3 x subject permissions over chains of depth "
-        "<= 3; verify()==True implies containment and issuer chain length >= 1. (3) enumerated acceptance grid ticket x psid x "
+        "<= 3; verify()==True implies containment and issuer chain length >= 1; (2b) enumerated 'wrongly issued' certificates signed directly "
+        "with a genuine issuer key under issuers with one or two certIssuePermissions entries of budgets 0..2: verify()==True implies every "
+        "needed PSID is covered by an entry whose budget is not exhausted. (3) enumerated acceptance grid ticket x psid x "
         "generation time x signer form. Non-trivial = history with a rejected forgery and a later accepted genuine certificate; issuing "
         "case where containment is false; grid cell that must be refused.")
 ASSUMPTIONS = [
@@ -85,12 +87,23 @@ class Variants:
         v["f_ca_without_app_bad_sig"] = C(pki.forge_cert(pki.tbs_ca("noapp.vf", [36], 1), k[7], z.aa.certificate, z.evil_sk), z.aa)
         v["g_ca_without_app"] = C(pki.forge_cert(pki.tbs_ca("noapp2.vf", [36], 1), k[8], z.aa_all.certificate, z.sk(z.aa_all)), z.aa_all)
         v["f_self_signed_at"] = C(pki.forge_cert(at_tbs, k[9], None, k[9]), None)
+        # wrongly issued by genuine keys: an AA whose certIssuePermissions entries have different budgets (PSID 36 exhausted, 37/638 live)
+        mixed_tbs = pki.tbs_ca("mixed.vf", [36], 0)
+        mixed_tbs["certIssuePermissions"].append({"subjectPermissions": ("explicit", [{"psid": 37}, {"psid": 638}]), "minChainLength": 1, "chainLengthRange": 0, "eeType": (b"\x00", 1)})
+        self.mixed_sk = new()
+        self.aa_mixed = C(pki.forge_cert(mixed_tbs, self.mixed_sk, z.root.certificate, z.sk(z.root)), z.root)
+        self.mixed_keys = [new(), new()]
+        v["g_aa_mixed_budget"] = self.aa_mixed
+        v["f_at36_under_exhausted_entry"] = C(pki.forge_cert(pki.tbs_at([36]), self.mixed_keys[0], self.aa_mixed.certificate, self.mixed_sk), self.aa_mixed)
+        v["g_at37_under_live_entry"] = C(pki.forge_cert(pki.tbs_at([37]), self.mixed_keys[1], self.aa_mixed.certificate, self.mixed_sk), self.aa_mixed)
         self.v = v
         self.names = sorted(v)
         self.keys = {"f_unknown_key": k[0], "f_unauthorised_psid": k[1], "f_extra_psid_at": k[3], "f_wrong_issuer_digest": k[4],
                      "f_lookalike_issuer": k[5], "f_issued_by_at": k[6], "f_self_signed_at": k[9]}
         for i, a in enumerate(z.ats):
             self.keys["g_at%d" % i] = z.sk(a)
+        self.keys["f_at36_under_exhausted_entry"] = self.mixed_keys[0]
+        self.keys["g_at37_under_live_entry"] = self.mixed_keys[1]
         for n, a in (("g_at36", z.at36), ("g_at_expired", z.at_expired), ("g_at_under_all", self.at_under_all), ("g_at_under_sub", self.at_under_sub),
                      ("f_evil_at", z.evil_at), ("g_at_future", z.at_future)):
             self.keys[n] = z.sk(a)
@@ -206,7 +219,7 @@ def run_history(case):
 
 
 def _why_key(why):
-    for k in ("signature", "'all'", "not contained", "not in the store", "not itself trusted", "no issuing", "digest", "never configured"):
+    for k in ("signature", "'all'", "not contained", "budget is exhausted", "not in the store", "not itself trusted", "no issuing", "digest", "never configured"):
         if k in why:
             return k.replace(" ", "-").replace("'", "")
     return "other"
@@ -269,6 +282,60 @@ def run_issuing(case):
         vs.append(violation(ID, "C09/issued-verifies-with-bad-signature", "verify() True but the signature does not verify under the issuer key"))
     # also: the requested subject permissions must not be silently widened beyond the issuer's
     return Outcome(vs, labels=labels, nontrivial=not contained or not chain_ok)
+
+
+# (2b) certificates signed directly with a genuine issuer key ("wrongly issued"): multi-entry issuers with per-entry budgets
+ENTRY_PSIDS = [[36], [37], [36, 37], "all"]
+
+
+def wrongly_issued_cases():
+    entries = [(ps, b) for ps in ENTRY_PSIDS for b in (0, 1, 2)]
+    issuers = [[e] for e in entries] + [[e1, e2] for e1 in entries for e2 in entries if e1[0] != e2[0]]
+    subj = [("at", [36]), ("at", [37]), ("at", [36, 37]), ("at", [1234]), ("ca", [36]), ("ca", [37]), ("ca", "all")]
+    for iss in issuers:
+        for kind, sp in subj:
+            yield {"issuer_entries": [[ps, b] for ps, b in iss], "kind": kind, "subject": sp}
+
+
+def run_wrongly_issued(case):
+    import ecdsa
+    from flexstack.security.certificate import Certificate
+    z = pki.Zoo.get()
+    B = z.backend
+    ent = []
+    for ps, b in case["issuer_entries"]:
+        sp = ("all", None) if ps == "all" else ("explicit", [{"psid": x} for x in ps])
+        ent.append({"subjectPermissions": sp, "minChainLength": b, "chainLengthRange": 0, "eeType": (b"\x00", 1)})
+    itbs = pki.tbs_ca("wi.vf", [36], 1)
+    itbs["certIssuePermissions"] = ent
+    ks = _WI_KEYS or _WI_KEYS.extend([ecdsa.SigningKey.generate(curve=ecdsa.NIST256p) for _ in range(2)]) or _WI_KEYS
+    issuer = Certificate(pki.forge_cert(itbs, ks[0], None, ks[0]), None)
+    stbs = pki.tbs_at(case["subject"]) if case["kind"] == "at" else pki.tbs_ca("ws.vf", case["subject"], 1)
+    subject = Certificate(pki.forge_cert(stbs, ks[1], issuer.certificate, ks[0]), issuer)
+    try:
+        ok = subject.verify(B)
+    except Exception as e:
+        return Outcome([violation(ID, "C09/wrongly-issued-verify-raises:%s" % type(e).__name__, "verify() raised %r for %r" % (e, case))])
+    need, wants_all = pki.needed_perms(subject.certificate)
+    allowed = pki.budget_covers(issuer.certificate, need, wants_all)
+    vs = []
+    if ok and not allowed:
+        vs.append(violation(ID, "C09/verifies-under-exhausted-issuer-entry", "issuer entries %r, subject %s %r: verify() True although the needed permissions are covered only by entries with chain length 0 (or not at all)" % (
+            case["issuer_entries"], case["kind"], case["subject"])))
+    return Outcome(vs, labels=["wrongly-issued:verify=%s allowed=%s" % (ok, allowed)], nontrivial=not allowed)
+
+
+_WI_KEYS = []
+
+
+def job_wrongly_issued(shard, nshards):
+    part = Partial()
+    for i, case in enumerate(wrongly_issued_cases()):
+        if i % nshards != shard:
+            continue
+        part.record(case, run_wrongly_issued(case), kind="wrongly_issued")
+    part.subcount("wrongly-issued-grid", enumerated=True)
+    return part
 
 
 def job_issuing(shard, nshards):
@@ -345,6 +412,8 @@ def jobs(tier, seed):
         js.append({"fn": "vf.props.c09:job_issuing", "args": {"shard": s, "nshards": 5}})
     for s in range(3):
         js.append({"fn": "vf.props.c09:job_grid", "args": {"shard": s, "nshards": 3}})
+    for s in range(2):
+        js.append({"fn": "vf.props.c09:job_wrongly_issued", "args": {"shard": s, "nshards": 2}})
     return js
 
 
@@ -355,4 +424,6 @@ def replay(kind, case):
         return run_issuing(case)
     if kind == "grid":
         return run_grid(case)
+    if kind == "wrongly_issued":
+        return run_wrongly_issued(case)
     raise ValueError(kind)
